@@ -592,6 +592,12 @@ def run_func(ctx, case):
   ctx.count("func:" + name)
   ctx.count("container:" + kind)
 
+  def call_elem(fn_, *a):
+    try:
+      return ("val", fn_(*a))
+    except Exception as exc:  # noqa
+      return ("exc", type(exc).__name__)
+
   def check_elem(got, v, pos):
     want = apply_oracle(oracle, v)
     if got[0] != want[0] or (got[0] == "exc" and got[1] != want[1]) or \
@@ -599,13 +605,18 @@ def run_func(ctx, case):
       ctx.violation("func/%s/wrong-value" % name, case, index=pos, arg=v,
                     got=got, want=want)
       return False
+    if kind != "scalar" and got[0] == "val":
+      # "the i-th output equals the function applied to the i-th element":
+      # the element of the container result and the scalar call on the same
+      # element must be the very same value (type and bits), whatever the
+      # tolerance of my own re-statement of the function
+      alone = call_elem(call, v)
+      ctx.count("element-vs-scalar-call")
+      if alone[0] != "val" or not same(alone[1], got[1]):
+        ctx.violation("func/%s/element-differs-from-scalar-call" % name, case,
+                      index=pos, arg=v, in_container=got, alone=alone)
+        return False
     return True
-
-  def call_elem(fn_, *a):
-    try:
-      return ("val", fn_(*a))
-    except Exception as exc:  # noqa
-      return ("exc", type(exc).__name__)
 
   if kind == "scalar":
     for v in vals[:2] or [DOMAINS[dom][0]]:
